@@ -150,7 +150,10 @@ pub fn enumerate_histories(len: usize, max_start_nodes: usize) -> Vec<History> {
                 let mut w = model::World::new(&h);
                 let mut ok = true;
                 for op in prefix {
-                    if w.apply(op, &mut CaseCtx::default()).is_err() {
+                    // a panic of the code under test while a prefix is replayed: the prefix itself is in
+                    // the list and is judged (and reported) when the list is run; it is not extended
+                    let applied = crate::engine::catch(|| w.apply(op, &mut CaseCtx::default()).is_err());
+                    if !matches!(applied, Ok(false)) {
                         ok = false;
                         break;
                     }
